@@ -136,11 +136,18 @@ def main():
                     for which in ("a", "b"):
                         if rng.random() < 0.4:
                             nm = "c%d%s" % (j, which)
-                            cdecl.append([nm, q["f" + which]])
+                            cdecl.append([nm, q["f" + which]] + (["float"] if rng.random() < 0.5 else []))   # value as text or as a float
                             q[which + "t"] = nm
             o = dt_obj(phi, S, vs, text="out = " + to_text(written, S), written=written,
                        units={"def": default, "pnum": pn2, "pden": 1, "punit": pu2}, unit=default, set_period=[pn2, pu2, 0.1], styles=styles,
                        consts=cdecl)
+            if pu2 != "ns" and rng.random() < 0.3:
+                # the period in the next larger unit as a float: 500 ms = 0.5 s (exact in binary when it is a multiple of 1/8)
+                big = {"ms": "s", "us": "ms"}.get(pu2)
+                if big and (pn2 * 8) % 1000 == 0:
+                    o["set_period"] = [pn2 / 1000.0, big, 0.1]
+            elif rng.random() < 0.2:
+                o["period_as_float"] = True          # 2 -> 2.0
             objs.append(o)
         h = horizon(phi)
         N = rng.choice([2, 3, 5, 8]) + (h if kind == "past" else 0)
